@@ -11,7 +11,7 @@ A vector is `ℕ → ℝ` read at indices `< n`; "equal" means equal at every in
 `is_in` statements are at `tol = 0` (exact arithmetic); `sliceProj_tol_close` says what `tol > 0`
 changes.  What is *not* provable for a finite run — that Dykstra's iterates are the nearest point
 of the intersection — is a limit statement; the loop gets partial correctness only
-(`dykstra_partial`), and even that certifies the *tested* iterate `y`, not the returned `x`.
+(`dykstra_partial`: a returned point passed both `is_in` tests, i.e. is within `tol` of both sets).
 -/
 namespace DK.C18
 open DK
@@ -503,6 +503,32 @@ theorem notBoth_false_iff (y : X) :
     | error e => cases a <;> simp [bind, Except.bind, pure, Except.pure, hB]
     | ok b => cases a <;> cases b <;> simp [bind, Except.bind, pure, Except.pure, hB]
 
+theorem dykTest_false_iff (y x : X) :
+    dykTest inA inB y x = .ok false ↔ inA y = .ok true ∧ inB y = .ok true ∧ inA x = .ok true := by
+  unfold dykTest
+  cases hnb : notBoth inA inB y with
+  | error e =>
+    have : ¬ (inA y = .ok true ∧ inB y = .ok true) := by
+      intro h; rw [(notBoth_false_iff inA inB y).mpr h] at hnb; cases hnb
+    simp only [bind, Except.bind]
+    constructor
+    · intro h; cases h
+    · intro h; exact absurd ⟨h.1, h.2.1⟩ this
+  | ok b =>
+    cases b with
+    | true =>
+      have : ¬ (inA y = .ok true ∧ inB y = .ok true) := by
+        intro h; rw [(notBoth_false_iff inA inB y).mpr h] at hnb; cases hnb
+      simp only [bind, Except.bind, pure, Except.pure]
+      constructor
+      · intro h; cases h
+      · intro h; exact absurd ⟨h.1, h.2.1⟩ this
+    | false =>
+      have hy := (notBoth_false_iff inA inB y).mp hnb
+      cases hA : inA x with
+      | error e => simp [bind, Except.bind, hy]
+      | ok a => cases a <;> simp [bind, Except.bind, pure, Except.pure, hy]
+
 /-- first shortcut of `Intersection.project`: `proj = a.project(p); if b.is_in(proj): return proj`. -/
 theorem interProj_shortcut_a (M : ℕ) (zero p pa : X) (h1 : Pa p = .ok pa) (h2 : inB pa = .ok true) :
     interProj add sub Pa Pb inA inB M zero p = .ok pa := by
@@ -517,18 +543,18 @@ theorem interProj_shortcut_b (M : ℕ) (zero p pa pb : X) (h1 : Pa p = .ok pa) (
   simp [h1, h2, h3, h4, bind, Except.bind, pure, Except.pure]
 
 /-- **partial correctness of the Dykstra loop** (for `1 ≤ maxiter`; `c < M` at entry): if the
-loop returns `r` then its exit test succeeded on the last `a`-side iterate `y` — `a.is_in(y)` and
-`b.is_in(y)` — and `r = b.project(y + q)` for the correction `q` of that iteration.  Otherwise the
-result is an error (`maxiter`, or an error of a sub-projection).
+loop returns `r` then the exit test succeeded: `a.is_in(r)` holds for the returned point itself,
+and `r = b.project(y + q)` (so it is in `b` whenever `b.project` lands in `b`) for the last a-side
+iterate `y`, which passed `a.is_in(y)` and `b.is_in(y)`.  With `interProj_ok_mem` /
+`VRegion.inter_result_isIn`: a returned point is within `tol` of both sets.  Otherwise the result
+is an error (`maxiter`, or an error of a sub-projection).
 
-Note what this does *not* say.  (1) The code tests `y` but returns `x = b.project(y + q)`; that
-`x` is within `tol` of region `a` is not implied by the exit test (and
-`is_in(project(p))` is observed to be `False` on some inputs: see the C18 report).
-(2) That the iterates converge to the *nearest* point of `a ∩ b` (Boyle–Dykstra) is a statement
-about the limit; a finite run only certifies near-membership, not minimal distance. -/
+What this does *not* say: that the iterates converge to the *nearest* point of `a ∩ b`
+(Boyle–Dykstra) is a statement about the limit; a finite run only certifies near-membership of
+the returned point (and that the a-side iterate is feasible too), not minimal distance. -/
 theorem dykLoop_partial (M : ℕ) : ∀ (fuel c : ℕ) (x p q r : X), c < M →
     dykLoop add sub Pa Pb inA inB M fuel c x p q = .ok r →
-    ∃ y q', inA y = .ok true ∧ inB y = .ok true ∧ Pb (add y q') = .ok r := by
+    inA r = .ok true ∧ ∃ y q', inA y = .ok true ∧ inB y = .ok true ∧ Pb (add y q') = .ok r := by
   intro fuel
   induction fuel with
   | zero => intro c x p q r _ h; simp [dykLoop, throw, throwThe, MonadExceptOf.throw] at h
@@ -544,7 +570,7 @@ theorem dykLoop_partial (M : ℕ) : ∀ (fuel c : ℕ) (x p q r : X), c < M →
         simp only [hy, hx, bind, Except.bind] at h
         by_cases hlt : c + 1 < M
         · simp only [hlt, if_true] at h
-          cases hnb : notBoth inA inB y with
+          cases hnb : dykTest inA inB y x' with
           | error e => simp [hnb] at h
           | ok b =>
             cases b with
@@ -554,8 +580,9 @@ theorem dykLoop_partial (M : ℕ) : ∀ (fuel c : ℕ) (x p q r : X), c < M →
             | false =>
               have hne : ¬ (c + 1 = M) := by omega
               simp [hnb, pure, Except.pure, hne] at h
-              have := (notBoth_false_iff inA inB y).mp hnb
-              exact ⟨y, q, this.1, this.2, by rw [hx, h]⟩
+              have := (dykTest_false_iff inA inB y x').mp hnb
+              subst h
+              exact ⟨this.2.2, y, q, this.1, this.2.1, hx⟩
         · have he : c + 1 = M := by omega
           simp [hlt, he, pure, Except.pure, throw, throwThe, MonadExceptOf.throw] at h
 
@@ -583,7 +610,7 @@ theorem dykLoop_fuel (M : ℕ) : ∀ (f g c : ℕ) (x p q : X), c ≤ M → M < 
           simp only []
           by_cases hlt : c + 1 < M
           · simp only [hlt, if_true]
-            cases hnb : notBoth inA inB y with
+            cases hnb : dykTest inA inB y x' with
             | error e => rfl
             | ok b =>
               cases b with
@@ -595,15 +622,15 @@ theorem dykLoop_fuel (M : ℕ) : ∀ (f g c : ℕ) (x p q : X), c ≤ M → M < 
 
 theorem dykstra_partial (M : ℕ) (hM : 1 ≤ M) (zero point r : X)
     (h : dykstraProj add sub Pa Pb inA inB M zero point = .ok r) :
-    ∃ y q, inA y = .ok true ∧ inB y = .ok true ∧ Pb (add y q) = .ok r :=
+    inA r = .ok true ∧ ∃ y q, inA y = .ok true ∧ inB y = .ok true ∧ Pb (add y q) = .ok r :=
   dykLoop_partial add sub Pa Pb inA inB M (M + 1) 0 point zero zero r (by omega) h
 
-/-- whatever `Intersection.project` returns is either a shortcut value or certified by the loop
-test; in all other cases it raises. -/
+/-- whatever `Intersection.project` returns is a shortcut value or passed the loop test itself;
+in all other cases it raises. -/
 theorem interProj_ok_cases (M : ℕ) (hM : 1 ≤ M) (zero p r : X)
     (h : interProj add sub Pa Pb inA inB M zero p = .ok r) :
     (Pa p = .ok r ∧ inB r = .ok true) ∨ (Pb p = .ok r ∧ inA r = .ok true) ∨
-    ∃ y q, inA y = .ok true ∧ inB y = .ok true ∧ Pb (add y q) = .ok r := by
+    (inA r = .ok true ∧ ∃ y q, inA y = .ok true ∧ inB y = .ok true ∧ Pb (add y q) = .ok r) := by
   unfold interProj at h
   simp only [bind, Except.bind] at h
   cases h1 : Pa p with
@@ -634,6 +661,20 @@ theorem interProj_ok_cases (M : ℕ) (hM : 1 ≤ M) (zero p r : X)
               simp [h4] at h
               right; right
               exact dykstra_partial add sub Pa Pb inA inB M hM zero p r h
+/-- **every returned point is (tolerance-)in both regions.**  `InA`, `InB` are what the two
+`is_in` tests certify (at `tol = 0`: membership, `*_isIn_iff_mem`; at `tol > 0`: being moved by at
+most `tol` per coordinate by the region's projection).  If each region's `project` lands where
+its own `is_in` accepts, then whatever `Intersection.project` returns — by either shortcut or by
+the loop — is accepted by both tests; otherwise it raises. -/
+theorem interProj_ok_mem (InA InB : X → Prop)
+    (hPa : ∀ x r, Pa x = .ok r → InA r) (hPb : ∀ x r, Pb x = .ok r → InB r)
+    (hinA : ∀ x, inA x = .ok true → InA x) (hinB : ∀ x, inB x = .ok true → InB x)
+    (M : ℕ) (hM : 1 ≤ M) (zero p r : X)
+    (h : interProj add sub Pa Pb inA inB M zero p = .ok r) : InA r ∧ InB r := by
+  rcases interProj_ok_cases add sub Pa Pb inA inB M hM zero p r h with ⟨h1, h2⟩ | ⟨h1, h2⟩ | ⟨h1, y, q, _, _, h4⟩
+  · exact ⟨hPa p r h1, hinB r h2⟩
+  · exact ⟨hinA r h2, hPb p r h1⟩
+  · exact ⟨hinA r h1, hPb _ r h4⟩
 end inter
 
 /-- **shortcut_sound**: if `x` is the nearest point of `A` to `p` and `x ∈ B`, then `x` is the
@@ -1103,6 +1144,81 @@ example : ∃ (lo hi nrm p : ℕ → ℝ) (o sign : ℝ), (∀ i < 2, lo i ≤ h
    by norm_num [dot, sumTo],
    ⟨fun h => absurd h (by norm_num), fun _ => by norm_num [dot, sumTo, cubeProj, clamp]⟩,
    by intro h; have := (h 0 (by norm_num)).2; norm_num at this⟩
+
+
+/-- **the composed `Intersection` never returns a point its own membership test rejects**
+(any `tol`, `1 ≤ maxiter`): if each part's `project` lands where that part's `is_in` accepts
+(`hselfA`, `hselfB`; true of boxes and half-spaces for every `tol ≥ 0`, see
+`box_half_result_isIn`), then a value returned by `Intersection(a, b).project` — through either
+shortcut or through Dykstra's loop — passes `a.is_in` and `b.is_in`, i.e. `is_in(project(p))`. -/
+theorem VRegion.inter_result_isIn (tol : ℝ) (M n : ℕ) (hM : 1 ≤ M) (a b : VRegion ℝ)
+    (hselfA : ∀ x y, a.project tol M n x = .ok y → a.isIn tol M n (ofL (toL n y)) = .ok true)
+    (hselfB : ∀ x y, b.project tol M n x = .ok y → b.isIn tol M n (ofL (toL n y)) = .ok true)
+    (p x : ℕ → ℝ) (h : (VRegion.inter a b).project tol M n p = .ok x) :
+    (VRegion.inter a b).isIn tol M n x = .ok true := by
+  rw [VRegion.project] at h
+  cases hr : interProj ladd lsub
+      (fun x => Except.map (toL n) (VRegion.project tol M a n (ofL x)))
+      (fun x => Except.map (toL n) (VRegion.project tol M b n (ofL x)))
+      (fun x => VRegion.isIn tol M a n (ofL x)) (fun x => VRegion.isIn tol M b n (ofL x))
+      M (List.replicate n 0) (toL n p) with
+  | error e => rw [hr] at h; simp [Except.map] at h
+  | ok r =>
+    rw [hr] at h
+    have hx : x = ofL r := by simp [Except.map] at h; exact h.symm
+    subst hx
+    have key := interProj_ok_mem ladd lsub _ _ _ _
+      (fun r => VRegion.isIn tol M a n (ofL r) = .ok true)
+      (fun r => VRegion.isIn tol M b n (ofL r) = .ok true)
+      (by
+        intro x r' hx'
+        cases hp : VRegion.project tol M a n (ofL x) with
+        | error e => simp [hp, Except.map] at hx'
+        | ok y =>
+          simp [hp, Except.map] at hx'
+          rw [← hx']; exact hselfA _ _ hp)
+      (by
+        intro x r' hx'
+        cases hp : VRegion.project tol M b n (ofL x) with
+        | error e => simp [hp, Except.map] at hx'
+        | ok y =>
+          simp [hp, Except.map] at hx'
+          rw [← hx']; exact hselfB _ _ hp)
+      (fun _ h => h) (fun _ h => h) M hM _ _ r hr
+    rw [VRegion.isIn]
+    unfold interIsIn
+    simp [key.1, key.2, bind, Except.bind]
+
+/-- instance: box ∩ half-space, every `tol ≥ 0`, every dimension. -/
+theorem box_half_result_isIn (tol : ℝ) (htol : 0 ≤ tol) (M n : ℕ) (hM : 1 ≤ M) (lo hi nrm : ℕ → ℝ)
+    (o sign : ℝ) (hn : 0 < dot n nrm nrm) (p x : ℕ → ℝ)
+    (h : (VRegion.inter (.cube n lo hi) (.half n nrm o sign)).project tol M n p = .ok x) :
+    (VRegion.inter (.cube n lo hi) (.half n nrm o sign)).isIn tol M n x = .ok true := by
+  apply VRegion.inter_result_isIn tol M n hM _ _ _ _ p x h
+  · intro x y hxy
+    rw [VRegion.project_cube] at hxy
+    have e : cubeProj lo hi x = y := by injection hxy
+    subst e
+    rw [VRegion.isIn_cube]
+    congr 1
+    unfold isIn
+    rw [closeTo_iff]
+    intro i hi'
+    rw [cubeProj_local n lo hi _ _ (fun j hj => ofL_toL n _ j hj) i hi', ofL_toL n _ i hi',
+      cube_proj_idempotent]
+    simpa using htol
+  · intro x y hxy
+    rw [VRegion.project_half] at hxy
+    have e : halfspaceProj n nrm o sign x = y := by injection hxy
+    subst e
+    rw [VRegion.isIn_half]
+    congr 1
+    unfold isIn
+    rw [closeTo_iff]
+    intro i hi'
+    rw [halfspaceProj_local n nrm o sign _ _ (fun j hj => ofL_toL n _ j hj) i hi', ofL_toL n _ i hi',
+      halfspace_proj_idempotent n nrm o sign hn _ i hi']
+    simpa using htol
 
 
 end DK.C18
